@@ -176,12 +176,15 @@ Definition readers (nl : netlist) (w : wid) : list net :=
 Definition dco_skips (o : op) : bool :=
   match o with OpMemWr _ | OpReg => true | _ => false end.
 
-(* the 'w' net into an Output that [n]'s destination exclusively feeds *)
+(* the NON-TRUNCATING 'w' net into an Output that [n]'s destination exclusively feeds
+   (passes.py: `if len(dst_net.dests[0]) != len(dest_wire): continue`) *)
 Definition dco_candidate (skips : op -> bool) (nl : netlist) (n : net) : option net :=
   if skips (nop n) then None
   else match readers nl (ndest n) with
        | [r] => match nop r with
-                | OpW => if is_output nl (ndest r) then Some r else None
+                | OpW => if is_output nl (ndest r)
+                            && (width_of nl (ndest r) =? width_of nl (ndest n))
+                         then Some r else None   (* a truncating 'w' net is not redundant *)
                 | _ => None
                 end
        | _ => None
@@ -323,7 +326,8 @@ Definition post_one_bit_selects (nl : netlist) : bool :=
                     | _ => true
                     end) (nets nl).
 
-(* no net is left whose destination exclusively feeds a 'w' net into an Output *)
+(* no net with an eligible producer is left whose destination exclusively feeds a
+   non-truncating 'w' net into an Output *)
 Definition post_direct_connect_outputs (nl : netlist) : bool :=
   forallb (fun n => match dco_candidate dco_skips nl n with Some _ => false | None => true end)
           (nets nl).
